@@ -95,6 +95,7 @@ type Path struct {
 	Blocks    []int
 	StopPhis  map[string]*Expr // for Term "stop": values flowing into the phis of the target block, by phi comment
 	StopFrom  *ssa.BasicBlock
+	StopInstr ssa.Instruction // for Term "stopat": the instruction not executed; Results hold its operands' values
 }
 
 func (p *Path) lit(atom string) (pol, ok bool) {
@@ -123,6 +124,11 @@ type SPE struct {
 	Fn        *ssa.Function
 	Start     *ssa.BasicBlock
 	Stop      func(from, to *ssa.BasicBlock) bool // edge from->to ends the path with Term "stop"
+	// StartAt: begin at this instruction (in the middle of its block) instead
+	// of at Start; StopAt: end the path with Term "stopat" just before an
+	// instruction (never the StartAt instruction at the very beginning)
+	StartAt   ssa.Instruction
+	StopAt    func(in ssa.Instruction) bool
 	MaxVisits int
 	InitCell  func(addr *Expr) *Expr
 	Decide    func(atom *Expr, p *pathState) (val, known bool)
@@ -157,6 +163,7 @@ type pathState struct {
 	ambig   string
 	allocs  map[string]bool // alloc address strings created on this path
 	blocks  []int
+	begun   bool // the first instruction of the exploration was passed (StopAt)
 	epochs  map[string]int
 	nRange  int
 	frames  []speFrame // call sites of helpers being executed in place
@@ -180,6 +187,7 @@ func (s *pathState) clone() *pathState {
 		allocs: make(map[string]bool, len(s.allocs)),
 		ambig:  s.ambig,
 		nRange: s.nRange,
+		begun:  s.begun,
 		frames: append([]speFrame(nil), s.frames...),
 	}
 	for k, v := range s.env {
@@ -253,6 +261,17 @@ func (x *SPE) Explore() {
 	start := x.Start
 	if start == nil {
 		start = x.Fn.Blocks[0]
+	}
+	if x.StartAt != nil {
+		b := x.StartAt.Block()
+		for i, in := range b.Instrs {
+			if in == x.StartAt {
+				st.visits[b]++
+				st.blocks = append(st.blocks, b.Index)
+				x.instrsFrom(st, b, i)
+				return
+			}
+		}
 	}
 	x.block(st, start, nil)
 }
@@ -347,6 +366,23 @@ func (x *SPE) block(st *pathState, b, pred *ssa.BasicBlock) {
 func (x *SPE) instrsFrom(st *pathState, b *ssa.BasicBlock, from int) {
 	for idx := from; idx < len(b.Instrs); idx++ {
 		in := b.Instrs[idx]
+		if x.StopAt != nil && len(st.frames) == 0 {
+			if !(in == x.StartAt && !st.begun) && x.StopAt(in) {
+				var res []*Expr
+				var ops []*ssa.Value
+				for _, op := range in.Operands(ops) {
+					if *op != nil {
+						res = append(res, x.val(st, *op))
+					}
+				}
+				x.finish(st, "stopat", res, b)
+				if len(x.Paths) > 0 {
+					x.Paths[len(x.Paths)-1].StopInstr = in
+				}
+				return
+			}
+			st.begun = true
+		}
 		if call, ok := in.(*ssa.Call); ok {
 			if cal := call.Call.StaticCallee(); cal != nil && cal.Blocks != nil && x.inlineDepth < 2 && ((x.Inline != nil && x.Inline(cal)) || defaultInline(cal)) {
 				if x.inlineCall(st, b, idx, call, cal) {
@@ -354,6 +390,17 @@ func (x *SPE) instrsFrom(st *pathState, b *ssa.BasicBlock, from int) {
 				}
 				if defaultInline(cal) && x.deepInline(st, b, idx, call, cal) {
 					return
+				}
+			}
+			if call.Call.StaticCallee() == nil && !call.Call.IsInvoke() && x.inlineDepth < 2 {
+				// a function value known on this path (a closure handed to a
+				// helper that is executed in place): call what it is
+				if _, isB := call.Call.Value.(*ssa.Builtin); !isB {
+					if fv := x.val(st, call.Call.Value); (fv.Op == OpClosure || fv.Op == OpFunc) && fv.Fn != nil && fv.Fn.Blocks != nil {
+						if x.inlineCallBound(st, b, idx, call, fv.Fn, fv.Args) {
+							return
+						}
+					}
 				}
 			}
 			if bi, ok := call.Call.Value.(*ssa.Builtin); ok && (bi.Name() == "min" || bi.Name() == "max") && len(call.Call.Args) == 2 {
@@ -546,6 +593,34 @@ func (x *SPE) modelStdlib(st *pathState, b *ssa.BasicBlock, idx int, call *ssa.C
 		st.env[call] = &Expr{Op: OpBuiltin, Name: "append", Args: []*Expr{{Op: OpConst, Type: call.Type()}, v}, Type: call.Type(), Pos: call.Pos()}
 		x.instrsFrom(st, b, idx+1)
 		return true
+	case "Concat":
+		// slices.Concat(a, b, ...) = append(append([]T(nil), a...), b...): a fresh
+		// slice holding the elements in order
+		if pkg != "slices" || len(args) != 1 {
+			return false
+		}
+		va := x.val(st, args[0])
+		if va.Op != OpSlice || va.Args[1] != nil || va.Args[2] != nil || !isArrayPtr(va.Args[0]) {
+			return false
+		}
+		arr := va.Args[0].Type.Underlying().(*types.Pointer).Elem().Underlying().(*types.Array)
+		if arr.Len() > 8 {
+			return false
+		}
+		e := &Expr{Op: OpConst, Type: call.Type()}
+		for i := int64(0); i < arr.Len(); i++ {
+			addr := &Expr{Op: OpIndexAddr, Args: []*Expr{va.Args[0], mkConstInt(i, types.Typ[types.Int])}, Type: types.NewPointer(arr.Elem()), Pos: call.Pos()}
+			el := x.load(st, addr, arr.Elem(), call.Pos())
+			e = &Expr{Op: OpBuiltin, Name: "append", Args: []*Expr{e, el}, Type: call.Type(), Pos: call.Pos()}
+		}
+		st.env[call] = e
+		x.instrsFrom(st, b, idx+1)
+		return true
+	case "IndexFunc", "ContainsFunc":
+		if len(args) != 2 || pkg != "slices" {
+			return false
+		}
+		return x.modelSearch(st, b, idx, call, name == "ContainsFunc")
 	case "CutPrefix", "CutSuffix", "TrimPrefix", "TrimSuffix":
 		if len(args) != 2 || pkg == "slices" {
 			return false
@@ -610,10 +685,167 @@ func (x *SPE) modelStdlib(st *pathState, b *ssa.BasicBlock, idx int, call *ssa.C
 	return false
 }
 
+// modelSearch executes slices.IndexFunc / ContainsFunc with a pure, loop-free
+// predicate as the linear search it is: for k = 0, 1, ... the path forks on
+// k < len(xs) and on the predicate applied to xs[k], exactly the literals
+// and index events a hand-written range loop with a found flag produces; the
+// result is the constant k (or -1 / false when the elements are exhausted).
+func (x *SPE) modelSearch(st *pathState, b *ssa.BasicBlock, idx int, call *ssa.Call, contains bool) bool {
+	xs := x.val(st, call.Call.Args[0])
+	pv := x.val(st, call.Call.Args[1])
+	if (pv.Op != OpClosure && pv.Op != OpFunc) || pv.Fn == nil || len(pv.Fn.Params) != 1 || len(pv.Fn.Blocks) == 0 {
+		return false
+	}
+	pred := pv.Fn
+	if len(naturalLoops(pred)) > 0 || !x.pure.isPure(pred) || len(pv.Args) != len(pred.FreeVars) {
+		return false
+	}
+	sl, ok := call.Call.Args[0].Type().Underlying().(*types.Slice)
+	if !ok {
+		return false
+	}
+	elemT := sl.Elem()
+	intT := types.Typ[types.Int]
+	max := x.MaxVisits
+	if max < 1 {
+		max = 1
+	}
+	result := func(t *pathState, k int64, found bool) {
+		if contains {
+			t.env[call] = mkConstBool(found)
+		} else {
+			t.env[call] = mkConstInt(k, intT)
+		}
+		x.instrsFrom(t, b, idx+1)
+	}
+	// fork runs yes/no on the two outcomes of a condition, honouring what the
+	// path already knows
+	fork := func(t *pathState, cond *Expr, yes, no func(*pathState)) {
+		if v, ok := cond.boolConst(); ok {
+			if v {
+				yes(t)
+			} else {
+				no(t)
+			}
+			return
+		}
+		a, pol := normAtom(cond)
+		if v, ok := t.known(a); ok {
+			if v == pol {
+				yes(t)
+			} else {
+				no(t)
+			}
+			return
+		}
+		if x.Decide != nil {
+			if v, ok := x.Decide(a, t); ok {
+				if v == pol {
+					yes(t)
+				} else {
+					no(t)
+				}
+				return
+			}
+		}
+		u := t.clone()
+		u.addLit(a, pol, call.Pos(), call)
+		yes(u)
+		t.addLit(a, !pol, call.Pos(), call)
+		no(t)
+	}
+	okAll := true
+	var step func(t *pathState, k int64)
+	step = func(t *pathState, k int64) {
+		if x.Overflow || !okAll {
+			return
+		}
+		if int(k) >= max {
+			x.Truncated++
+			return
+		}
+		inRange := &Expr{Op: OpBin, Tok: token.LSS, Args: []*Expr{mkConstInt(k, intT), {Op: OpBuiltin, Name: "len", Args: []*Expr{xs}, Type: intT, Pos: call.Pos()}}, Type: types.Typ[types.Bool], Pos: call.Pos()}
+		fork(t, inRange, func(t *pathState) {
+			ki := mkConstInt(k, intT)
+			t.events = append(t.events, Event{Kind: EvIndex, Addr: xs, Val: ki, Pos: call.Pos(), Instr: call})
+			addr := &Expr{Op: OpIndexAddr, Args: []*Expr{xs, ki}, Type: types.NewPointer(elemT), Pos: call.Pos()}
+			elem := x.load(t, addr, elemT, call.Pos())
+			sub := &SPE{Fn: pred, MaxVisits: 1, Inline: x.Inline, inlineDepth: x.inlineDepth + 1, pure: x.pure, Decide: x.Decide}
+			sub.ParamVal = func(p *ssa.Parameter) *Expr { return elem }
+			sub.FreeVal = func(v *ssa.FreeVar) *Expr {
+				for i, fv := range pred.FreeVars {
+					if fv == v {
+						return pv.Args[i]
+					}
+				}
+				return nil
+			}
+			sub.InitCell = func(a *Expr) *Expr {
+				if v, ok := t.cells[a.String()]; ok {
+					return v
+				}
+				if x.InitCell != nil {
+					return x.InitCell(a)
+				}
+				return nil
+			}
+			sub.Explore()
+			if sub.Truncated > 0 || sub.Overflow || len(sub.Paths) == 0 || len(sub.Paths) > 16 {
+				okAll = false
+				return
+			}
+			for i, p := range sub.Paths {
+				if p.Term != "return" || len(p.Results) != 1 {
+					okAll = false
+					return
+				}
+				u := t
+				if i < len(sub.Paths)-1 {
+					u = t.clone()
+				}
+				feasible := true
+				for _, l := range p.Lits {
+					if v, ok := u.known(l.Atom); ok && v != l.Pol {
+						feasible = false
+					}
+				}
+				if !feasible {
+					continue
+				}
+				for _, ev := range p.Events {
+					if ev.Kind == EvLits {
+						if _, ok := u.litIdx[ev.Val.String()]; ok {
+							continue
+						}
+						u.lits = append(u.lits, Lit{Atom: ev.Val, Pol: ev.Pol, Pos: ev.Pos})
+						u.litIdx[ev.Val.String()] = ev.Pol
+					}
+					u.events = append(u.events, ev)
+				}
+				fork(u, p.Results[0], func(t *pathState) { result(t, k, true) }, func(t *pathState) { step(t, k+1) })
+			}
+		}, func(t *pathState) { result(t, -1, false) })
+	}
+	// the model must be all-or-nothing: try it on a scratch clone first is not
+	// possible (continuations run inside), so preconditions were checked above
+	step(st, 0)
+	if !okAll {
+		x.Truncated++
+	}
+	return true
+}
+
 // inlineCall splices the paths of a pure callee into the current path.
 // Returns false if the call could not be inlined (executed normally then).
 func (x *SPE) inlineCall(st *pathState, b *ssa.BasicBlock, idx int, call *ssa.Call, cal *ssa.Function) bool {
-	if len(naturalLoops(cal)) > 0 || len(cal.Blocks) > 40 {
+	return x.inlineCallBound(st, b, idx, call, cal, nil)
+}
+
+// inlineCallBound is inlineCall for a function value known on this path: a
+// closure (bind holds the values of its free variables) or a plain function
+// passed as an argument to a helper that was executed in place.
+func (x *SPE) inlineCallBound(st *pathState, b *ssa.BasicBlock, idx int, call *ssa.Call, cal *ssa.Function, bind []*Expr) bool {
+	if len(naturalLoops(cal)) > 0 || len(cal.Blocks) > 40 || len(bind) != len(cal.FreeVars) || len(call.Call.Args) != len(cal.Params) {
 		return false
 	}
 	effects := false
@@ -638,16 +870,36 @@ func (x *SPE) inlineCall(st *pathState, b *ssa.BasicBlock, idx int, call *ssa.Ca
 		}
 		return nil
 	}
-	if effects {
-		sub.InitCell = func(addr *Expr) *Expr {
-			if v, ok := st.cells[addr.String()]; ok {
-				return v
-			}
-			if x.InitCell != nil {
-				return x.InitCell(addr)
+	if len(bind) > 0 {
+		sub.FreeVal = func(v *ssa.FreeVar) *Expr {
+			for i, fv := range cal.FreeVars {
+				if fv == v {
+					return bind[i]
+				}
 			}
 			return nil
 		}
+	}
+	// what the callee reads is what memory holds at the call: cells stored on
+	// the caller's path, and fresh names for cells invalidated by an earlier
+	// impure call (never the initial value of a cell the caller has changed)
+	sub.InitCell = func(addr *Expr) *Expr {
+		if v, ok := st.cells[addr.String()]; ok {
+			return v
+		}
+		if st.epochOf(addr.String()) > 0 {
+			var t types.Type
+			if addr.Type != nil {
+				if p, ok := addr.Type.Underlying().(*types.Pointer); ok {
+					t = p.Elem()
+				}
+			}
+			return x.load(st, addr, t, addr.Pos)
+		}
+		if x.InitCell != nil {
+			return x.InitCell(addr)
+		}
+		return nil
 	}
 	sub.Explore()
 	if sub.Truncated > 0 || sub.Overflow || len(sub.Paths) == 0 || len(sub.Paths) > 64 {
@@ -879,7 +1131,7 @@ func (x *SPE) load(st *pathState, addr *Expr, t types.Type, pos token.Pos) *Expr
 		// not be returned; clients inspect the parts through the address
 		for c := range st.cells {
 			if strings.HasPrefix(c, k+".") {
-				return &Expr{Op: OpInit, Args: []*Expr{addr}, Type: t, Pos: pos}
+				return st.withParts(&Expr{Op: OpInit, Args: []*Expr{addr}, Type: t, Pos: pos}, k)
 			}
 		}
 		return v
@@ -887,6 +1139,9 @@ func (x *SPE) load(st *pathState, addr *Expr, t types.Type, pos token.Pos) *Expr
 	// a field of a cell that was stored as a whole
 	if addr.Op == OpFieldAddr {
 		if pv, ok := st.cells[addr.Args[0].String()]; ok && pv != nil {
+			if v := pv.Parts[addr.Name]; v != nil {
+				return v
+			}
 			return &Expr{Op: OpField, Args: []*Expr{pv}, Name: addr.Name, Type: t, Pos: pos}
 		}
 		if addr.Args[0].Op == OpFieldAddr {
@@ -916,7 +1171,48 @@ func (x *SPE) load(st *pathState, addr *Expr, t types.Type, pos token.Pos) *Expr
 			return v
 		}
 	}
-	return &Expr{Op: OpInit, Args: []*Expr{addr}, Type: t, Pos: pos}
+	return st.withParts(&Expr{Op: OpInit, Args: []*Expr{addr}, Type: t, Pos: pos}, k)
+}
+
+// withParts records, on a struct value loaded as a whole, the fields that
+// were stored individually into its cell before the load.
+func (st *pathState) withParts(e *Expr, k string) *Expr {
+	if e.Type == nil {
+		return e
+	}
+	if at, ok := e.Type.Underlying().(*types.Array); ok && at.Len() <= 16 {
+		for i := int64(0); i < at.Len(); i++ {
+			n := fmt.Sprintf("[%d]", i)
+			v, ok := st.cells[k+n]
+			if !ok || v == nil {
+				// an element whose fields were stored one by one
+				ea := &Expr{Op: OpIndexAddr, Args: []*Expr{e.Args[0], mkConstInt(i, types.Typ[types.Int])}, Type: types.NewPointer(at.Elem()), Pos: e.Pos}
+				v = st.withParts(&Expr{Op: OpInit, Args: []*Expr{ea}, Type: at.Elem(), Pos: e.Pos}, k+n)
+				if v.Parts == nil {
+					continue
+				}
+			}
+			if e.Parts == nil {
+				e.Parts = map[string]*Expr{}
+			}
+			e.Parts[n] = v
+		}
+		return e
+	}
+	stt, ok := e.Type.Underlying().(*types.Struct)
+	if !ok {
+		return e
+	}
+	for i := 0; i < stt.NumFields(); i++ {
+		n := stt.Field(i).Name()
+		if v, ok := st.cells[k+"."+n]; ok && v != nil {
+			if e.Parts == nil {
+				e.Parts = map[string]*Expr{}
+			}
+			e.Parts[n] = v
+		}
+	}
+	return e
 }
 
 func zeroOf(t types.Type) *Expr {
@@ -1050,6 +1346,10 @@ func (x *SPE) instr(st *pathState, in ssa.Instruction) {
 	case *ssa.Field:
 		a := x.val(st, in.X)
 		fld := in.X.Type().Underlying().(*types.Struct).Field(in.Field)
+		if v := a.Parts[fld.Name()]; v != nil {
+			st.env[in] = v
+			break
+		}
 		st.env[in] = &Expr{Op: OpField, Args: []*Expr{a}, Name: fld.Name(), Type: in.Type()}
 	case *ssa.FieldAddr:
 		a := x.val(st, in.X)
@@ -1062,6 +1362,12 @@ func (x *SPE) instr(st *pathState, in ssa.Instruction) {
 		a, i := x.val(st, in.X), x.val(st, in.Index)
 		a, i = unslice(a, i)
 		st.events = append(st.events, Event{Kind: EvIndex, Addr: a, Val: i, Pos: in.Pos(), Instr: in})
+		if k, ok := i.intConst(); ok {
+			if v := a.Parts[fmt.Sprintf("[%d]", k)]; v != nil {
+				st.env[in] = v
+				break
+			}
+		}
 		st.env[in] = &Expr{Op: OpIndex, Args: []*Expr{a, i}, Type: in.Type()}
 	case *ssa.IndexAddr:
 		a, i := x.val(st, in.X), x.val(st, in.Index)
@@ -1078,6 +1384,23 @@ func (x *SPE) instr(st *pathState, in ssa.Instruction) {
 			return x.val(st, v)
 		}
 		e := &Expr{Op: OpSlice, Args: []*Expr{x.val(st, in.X), o(in.Low), o(in.High), o(in.Max)}, Type: in.Type(), Pos: in.Pos()}
+		// a slice of a slice of an array is a slice of the array:
+		// arr[a:b][c:d] = arr[a+c : a+d], arr[a:b][c:] = arr[a+c : b]
+		if base := e.Args[0]; base.Op == OpSlice && len(base.Args) == 4 && base.Args[3] == nil && e.Args[3] == nil && isArrayPtr(base.Args[0]) && base.Args[2] != nil {
+			intT := types.Typ[types.Int]
+			a := base.Args[1]
+			if a == nil {
+				a = mkConstInt(0, intT)
+			}
+			lo, hi := a, base.Args[2]
+			if e.Args[1] != nil {
+				lo = foldBin(token.ADD, a, e.Args[1], intT, in.Pos())
+			}
+			if e.Args[2] != nil {
+				hi = foldBin(token.ADD, a, e.Args[2], intT, in.Pos())
+			}
+			e = &Expr{Op: OpSlice, Args: []*Expr{base.Args[0], lo, hi, nil}, Type: in.Type(), Pos: in.Pos()}
+		}
 		st.events = append(st.events, Event{Kind: EvSlice, Addr: e.Args[0], Val: e, Pos: in.Pos(), Instr: in})
 		st.env[in] = e
 	case *ssa.MakeSlice:
@@ -1167,6 +1490,9 @@ func (x *SPE) call(st *pathState, in ssa.Instruction, c *ssa.CallCommon, kind st
 				if f.Name() == "len" && len(args) == 1 {
 					if l := constLen(args[0]); l >= 0 {
 						e = mkConstInt(l, t)
+					} else if sl := args[0]; sl.Op == OpSlice && len(sl.Args) == 4 && sl.Args[1] != nil && sl.Args[2] != nil && sl.Args[3] == nil && isArrayPtr(sl.Args[0]) {
+						// len(array[a:b]) = b - a
+						e = foldBin(token.SUB, sl.Args[2], sl.Args[1], t, in.Pos())
 					} else if sl := args[0]; sl.Op == OpSlice && len(sl.Args) == 4 && sl.Args[1] != nil && sl.Args[2] == nil && sl.Args[3] == nil {
 						// len(x[c:]) = len(x) - c
 						if _, isC := sl.Args[1].intConst(); isC {
@@ -1314,6 +1640,13 @@ func foldBin(op token.Token, l, r *Expr, t types.Type, pos token.Pos) *Expr {
 			// nil comparisons
 			same := l.Const == nil && r.Const == nil
 			return mkConstBool(same == (op == token.EQL))
+		}
+	}
+	// (x + "a") + "b" is x + "ab": string concatenation is associative
+	if op == token.ADD && r.Op == OpConst && r.Const != nil && r.Const.Kind() == constant.String &&
+		l.Op == OpBin && l.Tok == token.ADD && len(l.Args) == 2 {
+		if lr := l.Args[1]; lr.Op == OpConst && lr.Const != nil && lr.Const.Kind() == constant.String {
+			return &Expr{Op: OpBin, Tok: token.ADD, Args: []*Expr{l.Args[0], {Op: OpConst, Const: constant.BinaryOp(lr.Const, token.ADD, r.Const), Type: r.Type}}, Type: t, Pos: pos}
 		}
 	}
 	// string(a) == string(b) on byte slices is bytes.Equal(a, b) (that is how
@@ -1505,6 +1838,45 @@ func (p *purity) storesOnly(f *ssa.Function) bool {
 // helper introduced later and is looked through (inlined) by the path
 // explorer, so that extracting lines into a helper is not a change.
 var knownFuncs map[string]bool
+
+// isArrayPtr: e is the address of an array (the operand of arr[a:b]).
+func isArrayPtr(e *Expr) bool {
+	if e == nil || e.Type == nil {
+		return false
+	}
+	p, ok := e.Type.Underlying().(*types.Pointer)
+	if !ok {
+		return false
+	}
+	_, isArr := p.Elem().Underlying().(*types.Array)
+	return isArr
+}
+
+// isAccessor: a single-block function that only reads (field addresses,
+// loads, slices, arithmetic) and returns: it has no behaviour of its own, and
+// an analysis of its caller may look through it.
+func isAccessor(f *ssa.Function) bool {
+	if f == nil || len(f.Blocks) != 1 || f.Pkg == nil || !strings.HasPrefix(f.Pkg.Pkg.Path(), modPath) {
+		return false
+	}
+	for _, in := range f.Blocks[0].Instrs {
+		switch in := in.(type) {
+		case *ssa.FieldAddr, *ssa.IndexAddr, *ssa.Slice, *ssa.BinOp, *ssa.Return, *ssa.DebugRef, *ssa.Field, *ssa.Convert, *ssa.ChangeType:
+		case *ssa.UnOp:
+			if in.Op == token.ARROW {
+				return false
+			}
+		case *ssa.Call:
+			b, ok := in.Call.Value.(*ssa.Builtin)
+			if !ok || (b.Name() != "len" && b.Name() != "cap") {
+				return false
+			}
+		default:
+			return false
+		}
+	}
+	return true
+}
 
 func defaultInline(f *ssa.Function) bool {
 	if knownFuncs == nil || f.Pkg == nil || f.Parent() != nil || !strings.HasPrefix(f.Pkg.Pkg.Path(), modPath) {
